@@ -28,5 +28,6 @@ func TestWorker(t *testing.T) {
 		"C18": checkC18,
 		"C23": checkC23,
 		"C21": checkC21,
+		"C43": checkC43,
 	})
 }
